@@ -446,8 +446,8 @@ def run(ctx):
     log = []
     with Patch() as patch, reach(ctx, anchored()):
         install_exit_recorders(ctx, patch, log)
-        drive_compositions(ctx, ctx.pick(240, 3000), log)
-        drive_shipped(ctx, log, ctx.pick(1, 6), ctx.pick(120, 400))
+        drive_compositions(ctx, ctx.pick(240, 12000), log)
+        drive_shipped(ctx, log, ctx.pick(1, 20), ctx.pick(120, 500))
 
 
 def replay(ctx, kind, payload):
